@@ -545,7 +545,13 @@ class XPathToken(Token[ta.XPathTokenType]):
 
             # Boolean comparison if one of the operands is a single boolean value (1.):
             # the other operand (a node-set too) is converted by its effective boolean value.
-            if len(left_items) == 1 and isinstance(left_items[0], bool):
+            # In XPath 1.0 the operands of < <= > >= that are not node-sets are both converted
+            # to numbers, also when one of them is a boolean.
+            if self.parser.version == '1.0' and self.symbol in ('<', '<=', '>', '>=') and \
+                    left_items and not any(isinstance(x, XPathNode) for x in left_items) and \
+                    right_items and not any(isinstance(x, XPathNode) for x in right_items):
+                pass  # (an empty operand is an empty node-set)
+            elif len(left_items) == 1 and isinstance(left_items[0], bool):
                 yield left_items[0], self.boolean_value(right_items)
                 return
             elif len(right_items) == 1 and isinstance(right_items[0], bool):
